@@ -89,8 +89,8 @@ class FrameItem(EFLRItem):
 
         # what was derived from the data at an earlier write (and not changed since) is derived anew from the data
         # of this write; only what the user assigned is kept
-        for attr, key, derived in self._set_from_data:
-            if getattr(attr, key) is derived:
+        for attr, key, stamp in self._set_from_data:
+            if getattr(attr, f'_{key}_stamp') is stamp:  # no assignment since (not even of an equal value)
                 setattr(attr, f'_{key}', None)
         self._set_from_data = []
 
@@ -106,7 +106,7 @@ class FrameItem(EFLRItem):
             if getattr(attr, key) is None and value is not None:
                 logger.debug(f"Setting {attr.label}.{key} of {self} to {value}")
                 setattr(attr, key, value)
-                self._set_from_data.append((attr, key, getattr(attr, key)))
+                self._set_from_data.append((attr, key, getattr(attr, f'_{key}_stamp')))
 
         index_channel: ChannelItem = self.channels.value[0]
         index_data = data[index_channel.name][:]
